@@ -80,8 +80,9 @@ ASSUME /\ MayPlace("SEQUENCE", 1, "{") /\ ~MayPlace("a", 1, "INTEGER") /\ ~MayPl
        /\ Render(<<"a", "B", ",">>, <<" ", "--c\n">>) = "a B--c\n,"
 
 (* positions of tokens; error lines *)
-Pos == PositionsAfter("-- head\n", <<"A", "::=", "?!", "END">>, <<" ", "/*c\nd*/ ", "\n\n">>, {})
-PosD == PositionsAfter("-- head\n", <<"A", "::=", "?!", "END">>, <<" ", "/*c\nd*/ ", "\n\n">>, {DevBlockCommentNewlinesBlanked})
+PFill == << <<" ">>, <<"/*c\n", "d*/ ">>, <<"\n", "\n">> >>
+Pos == PositionsAfter(<<"-- head\n">>, <<"A", "::=", "?!", "END">>, PFill, {}, 4)
+PosD == PositionsAfter(<<"-- head\n">>, <<"A", "::=", "?!", "END">>, PFill, {DevBlockCommentNewlinesBlanked}, 4)
 ASSUME /\ Pos[1] = [line |-> 2, col |-> 1, cole |-> 1]
        /\ Pos[2] = [line |-> 2, col |-> 3, cole |-> 5]
        /\ Pos[3] = [line |-> 3, col |-> 5, cole |-> 6]
